@@ -340,6 +340,20 @@ impl std::fmt::Debug for DhtOperationContext {
     }
 }
 
+/// Removes a pending DHT operation entry when its request future ends for any reason.
+struct ActiveOperationGuard {
+    operations: Arc<Mutex<HashMap<String, DhtOperationContext>>>,
+    message_id: String,
+}
+
+impl Drop for ActiveOperationGuard {
+    fn drop(&mut self) {
+        if let Ok(mut ops) = self.operations.lock() {
+            ops.remove(&self.message_id);
+        }
+    }
+}
+
 /// DHT peer information
 #[derive(Debug, Clone)]
 pub struct DhtPeerInfo {
@@ -1822,6 +1836,12 @@ impl DhtNetworkManager {
         if let Ok(mut ops) = self.active_operations.lock() {
             ops.insert(message_id.clone(), operation_context);
         }
+        // From here on the pending entry is removed however this future ends, including
+        // cancellation by the caller (which skips the explicit cleanup below).
+        let _pending_guard = ActiveOperationGuard {
+            operations: Arc::clone(&self.active_operations),
+            message_id: message_id.clone(),
+        };
 
         // Send message via network layer
         info!(
